@@ -2,7 +2,7 @@
 # run.sh <property> <quick|thorough>        run the check of one property
 # run.sh <property> replay <file>           re-execute a recorded violation
 # run.sh setup                              pre-compile everything (offline)
-# run.sh selftest-determinism | selftest-sensitivity [ids...]
+# run.sh selftest-determinism | selftest-sensitivity [ids...] | selftest-replay
 #
 # Exit codes: 0 property held on everything explored; 1 VIOLATION printed;
 # 2 infrastructure trouble (build failure, instrumenter refusal, watchdog,
@@ -122,6 +122,18 @@ setup)
 		build_inst "-race" || exit 2
 	fi
 	echo "setup ok"
+	;;
+selftest-replay)
+	# record-vs-replay equivalence of the simulator itself, every property
+	rc=0
+	build_plain
+	for id in C11 C12 C13 C14; do "$SCR/vh" "$id" selftest-replay || rc=2; done
+	export VERIF_PLAIN_VH="$SCR/vh" VERIF_SCRATCH_RUN="$SCR"
+	build_inst ""
+	"$SCR/vhinst" C17 selftest-replay || rc=2
+	build_inst "-race"
+	"$SCR/vhinst" C18 selftest-replay || rc=2
+	exit $rc
 	;;
 selftest-determinism | selftest-sensitivity)
 	cmd="$1"
